@@ -24,7 +24,7 @@ from vlib.runner import Ctx
 COMBOS = {
     "dqn-1env-nowrap": ("DQN", 4, 3, None, 64, 5, 1, 4),
     "dqn-1env-wrap": ("DQN", 4, 3, None, 6, 9, 1, 4),
-    "dqn-3env-wrap": ("DQN", 4, 3, None, 16, 3, 3, 3),  # capacity 5 per env
+    "dqn-3env-wrap": ("DQN", 4, 3, None, 16, 4, 3, 3),  # capacity 5 per env; learning_starts != num_steps
     "dqn-2env-ls0": ("DQN", 3, 2, None, 40, 0, 2, 5),
     "sac-1env": ("SAC", 4, 3, (), 64, 4, 1, 3),
     "sac-3env-wrap": ("SAC", 3, 2, (2,), 12, 6, 3, 2),  # capacity 4 per env, warm-up 6 > capacity
